@@ -52,7 +52,7 @@ def gen_case(rng: random.Random, tier: str) -> dict:
             else:
                 terms.append({"scale": None, "scale_pos": 0, "factors": ["ctx0"]})
     icpt = rng.random() < 0.7
-    mat = rng.choice(["pandas", "pandas", "narwhals"])
+    mat = rng.choice(["pandas", "pandas", "narwhals", "base_product"])  # base_product: a subclass that keeps the default product loop
     # whole-number columns held in a (small) integer dtype: the same numbers, so the same products
     for _nm, c in frame["cols"]:
         if c["kind"] == "num" and all(float(v).is_integer() for v in c["values"]) and rng.random() < 0.7:
@@ -82,7 +82,7 @@ def gen_case(rng: random.Random, tier: str) -> dict:
         "na": na,
         "frame": frame, "terms": terms, "factors": factors, "icpt": icpt,
         "formula": gen.formula_text(terms, factors, icpt, rng),
-        "efr": rng.random() < 0.5, "output": rng.choice(["pandas", "numpy", "sparse"]), "mat": mat, "ctx": ctx,
+        "efr": rng.random() < 0.5, "output": rng.choice(["pandas", "numpy", "sparse"] if mat != "base_product" else ["pandas", "numpy"]), "mat": mat, "ctx": ctx,
     }
 
 
@@ -161,8 +161,13 @@ def judge(case: dict) -> Outcome:
         with quiet():
             # context vectors are numpy arrays: a plain Python list as factor value is outside this property ("data columns")
             ctx = {k: (np.array(v) if isinstance(v, list) else v) for k, v in (case.get("ctx") or {}).items()}
+            matname = case["mat"]
+            if matname == "base_product":
+                from ..custom_mat import base_product_materializer_name
+
+                matname = base_product_materializer_name()
             mm = model_matrix(case["formula"], df, ensure_full_rank=case["efr"], output=case["output"],
-                              materializer=case["mat"], context=ctx, na_action=case.get("na", "drop"))
+                              materializer=matname, context=ctx, na_action=case.get("na", "drop"))
     except Exception as e:
         if "out of bounds for" in str(e) and any(c.get("dtype") in SMALL_INTS for _n, c in case["frame"]["cols"]):
             out.fail("c02.small_integer_product_wraps", f"{case['formula']!r}: scaling a small-integer column by a literal raised {type(e).__name__}: {str(e)[:120]}")
